@@ -45,79 +45,20 @@ theorem formatLoop_shape {text : Bytes} {padding : Nat} {pos : Nat} {ds : List D
 
 end Knut.Syntax
 
+
 namespace Knut.Syntax
 open Knut.Utf8 Knut.Spec.Syntax
 set_option linter.unusedVariables false
 
-theorem mapM_some_of_forall {α β} {f : α → Option β} {l : List α} (h : ∀ x ∈ l, ∃ y, f x = some y) :
-    ∃ ys, l.mapM f = some ys := by
-  induction l with
-  | nil => exact ⟨[], by simp⟩
-  | cons a l ih =>
-    obtain ⟨y, hy⟩ := h a List.mem_cons_self
-    obtain ⟨ys, hys⟩ := ih (fun x hx => h x (List.mem_cons_of_mem _ hx))
-    exact ⟨y :: ys, by simp [List.mapM_cons, hy, hys]⟩
-
-theorem viewBooking_some {text : Bytes} {lo hi : Nat} {b : Booking} (h : nodeWF lo hi b.toNode = true)
-    (hh : hi ≤ text.length) : ∃ v, viewBooking text b = some v := by
-  simp only [Booking.toNode, Account.toNode, Decimal.toNode, Commodity.toNode, nodeWF_mk, nodesWF_cons, nodeWF_leaf,
-    nodesWF_nil, and_true] at h
-  obtain ⟨h0, h1, h2, h3, h4⟩ := h
-  simp [viewBooking, extract_some (text := text) (r := b.credit.range) (by omega) (by omega),
-    extract_some (text := text) (r := b.debit.range) (by omega) (by omega),
-    extract_some (text := text) (r := b.quantity.range) (by omega) (by omega),
-    extract_some (text := text) (r := b.commodity.range) (by omega) (by omega)]
-
-theorem viewBalance_some {text : Bytes} {lo hi : Nat} {b : Balance} (h : nodeWF lo hi b.toNode = true)
-    (hh : hi ≤ text.length) : ∃ v, viewBalance text b = some v := by
-  simp only [Balance.toNode, Account.toNode, Decimal.toNode, Commodity.toNode, nodeWF_mk, nodesWF_cons, nodeWF_leaf,
-    nodesWF_nil, and_true] at h
-  obtain ⟨h0, h1, h2, h3⟩ := h
-  simp [viewBalance, extract_some (text := text) (r := b.account.range) (by omega) (by omega),
-    extract_some (text := text) (r := b.quantity.range) (by omega) (by omega),
-    extract_some (text := text) (r := b.commodity.range) (by omega) (by omega)]
-
-theorem viewAccrual_some {text : Bytes} {lo hi : Nat} {a : Accrual} (h : nodeWF lo hi a.toNode = true)
-    (hh : hi ≤ text.length) : ∃ v, viewAccrual text a = some v := by
-  simp only [Accrual.toNode, Account.toNode, Date.toNode, Interval.toNode, nodeWF_mk, nodesWF_cons, nodeWF_leaf,
-    nodesWF_nil, and_true] at h
-  obtain ⟨h0, h1, h2, h3, h4⟩ := h
-  simp [viewAccrual, extract_some (text := text) (r := a.interval.range) (by omega) (by omega),
-    extract_some (text := text) (r := a.start.range) (by omega) (by omega),
-    extract_some (text := text) (r := a.stop.range) (by omega) (by omega),
-    extract_some (text := text) (r := a.account.range) (by omega) (by omega)]
-
-theorem optNode_wf {lo hi : Nat} {r : Range} {n : Node} (h : nodesWF lo hi (optNode r n) = true)
-    (hne : r.empty = false) : nodeWF lo hi n = true := by
-  unfold optNode at h
-  split at h
-  · rename_i hz
-    rw [hz] at hne
-    simp [Range.empty, Range.zero] at hne
-  · simpa [nodesWF_cons] using h
-
-theorem viewTransaction_some {text : Bytes} {lo hi : Nat} {t : Transaction} (h : nodeWF lo hi t.toNode = true)
-    (hh : hi ≤ text.length) : ∃ v, viewTransaction text t = some v := by
-  simp only [Transaction.toNode, nodeWF_mk, nodesWF_append, nodesWF_cons, nodesWF_nil, and_true, Date.toNode, nodeWF_leaf,
-    nodesWF_map] at h
-  obtain ⟨h0, ⟨hadd, hd, hq⟩, hb⟩ := h
-  simp only [QuotedString.toNode, nodeWF_mk, nodesWF_cons, nodeWF_leaf, nodesWF_nil, and_true] at hq
-  have hbs := mapM_some_of_forall (f := viewBooking text) (l := t.bookings)
-    (fun b hb' => viewBooking_some (hb b hb') (by omega))
-  obtain ⟨bs, hbs⟩ := hbs
-  have hdate := extract_some (text := text) (r := t.date.range) (by omega) (by omega)
-  have hdesc := extract_some (text := text) (r := t.description.content) (by omega) (by omega)
-  -- the addons node, if any annotation is present
-  have hA : ∀ (hne : t.addons.accrual.range.empty = false ∨ t.addons.performance.range.empty = false),
-      nodeWF t.range.start t.range.stop t.addons.toNode = true := by
-    intro hne
-    unfold optNode at hadd
-    split at hadd
-    · rename_i hz
-      -- a zero addons range would make both annotations lie in [0, 0]... they are then both empty
-      exfalso
-      sorry
-    · simpa [nodesWF_cons] using hadd
-  sorry
+/-- **gaps verbatim**: whenever `format` produces output, it is the original gaps interleaved with the rendered
+directives, all rendered with one padding -/
+theorem format_shape {text : Bytes} {f : File} {out : Bytes} (h : format text f = some out) :
+    ∃ padding rs, initPadding text f.directives = some padding ∧
+      f.directives.mapM (printDirective text padding) = some rs ∧
+      out = interleave (gapsOf text 0 (f.directives.map (·.range))) rs := by
+  simp only [format, Option.bind_eq_bind, Option.bind_eq_some_iff] at h
+  obtain ⟨padding, hp, h⟩ := h
+  obtain ⟨rs, h1, h2⟩ := formatLoop_shape h
+  exact ⟨padding, rs, hp, h1, h2⟩
 
 end Knut.Syntax
